@@ -73,6 +73,21 @@ UnitDecN(u, b) ==
     [] u.k = "ctlv" -> CtlvDec(u.p.cls, b).n
     [] u.k = "uslphdr" -> UslpHdrDec(b, u.p.trunc).n
     [] u.k = "pdu" -> PduDec(b, u.p.kind).n
+\* The length a unit DECLARES on the wire, read from its own length-determining octets only (no decoding of its contents):
+\* what a receiver uses to find the next unit, whatever it thinks of this one.
+CfdpDeclHlen(b) == 4 + 2 * (Bits(b[4], 4, 3) + 1) + (Bits(b[4], 0, 3) + 1)
+DeclMin(u) == CASE u.k \in {"sph", "tc", "tm", "srv17", "srv1"} -> 6 [] u.k = "cds" -> 7 [] u.k \in {"reqid", "cfdphdr", "pdu"} -> 4
+                [] u.k = "lv" -> 1 [] u.k \in {"tlv", "ctlv"} -> 2 [] u.k = "uslphdr" -> IF u.p.trunc = 1 THEN 4 ELSE 7
+DeclLen(u, b) ==
+  CASE u.k = "sph" -> 6
+    [] u.k \in {"tc", "tm", "srv17", "srv1"} -> 7 + b[5] * 256 + b[6]
+    [] u.k = "cds" -> 7
+    [] u.k = "reqid" -> 4
+    [] u.k = "cfdphdr" -> CfdpDeclHlen(b)
+    [] u.k = "lv" -> 1 + b[1]
+    [] u.k \in {"tlv", "ctlv"} -> 2 + b[2]
+    [] u.k = "uslphdr" -> IF u.p.trunc = 1 THEN 4 ELSE 7 + Bits(b[7], 0, 3)
+    [] u.k = "pdu" -> CfdpDeclHlen(b) + b[2] * 256 + b[3]
 StreamOf(us) == ConcatAll([i \in DOMAIN us |-> UnitEnc(us[i])])
 HasPdu(us) == \E i \in DOMAIN us : us[i].k = "pdu"
 RECURSIVE SplitOk(_, _)
@@ -105,7 +120,7 @@ RobExact(ep, full, par) ==
     [] OTHER -> FALSE
 StrictPrefixOf(s, t) == Len(s) < Len(t) /\ s = Take(t, Len(s))
 
-FaultOps == {"fault.decode", "stream.split", "rob.decode"}
+FaultOps == {"fault.decode", "stream.split", "rob.decode", "sfx.foreign"}
 
 FaultExp(op, a) ==
   CASE op = "fault.decode" ->
@@ -123,6 +138,15 @@ FaultExp(op, a) ==
          LET full == [lens |-> [i \in DOMAIN a.units |-> Len(UnitEnc(a.units[i]))],
                       units |-> [i \in DOMAIN a.units |-> UnitEnc(a.units[i])]]
          IN IF HasPdu(a.units) /\ Len(a.units) > 1 THEN [anyof |-> <<full, [rej |-> DocFams, late |-> TRUE]>>] ELSE full
+    \* a unit as it may arrive from a foreign implementation (contents the library's own constructors never produce: file
+    \* names that are not UTF-8, reserved codes, arbitrary non-length octets) followed by further octets: if the decoder accepts,
+    \* the object reports the declared length and is the object obtained from the unit alone
+    [] op = "sfx.foreign" ->
+         IF Len(a.octets) < DeclMin(a.u) THEN ExpAny
+         ELSE IF DeclLen(a.u, a.octets) # Len(a.octets) THEN ExpAny
+         \* (complete PDUs are not in the property's list of units whose reported length is the declared one: content only)
+         ELSE IF a.u.k = "pdu" THEN [anyof |-> <<[same |-> TRUE], ExpRej(DocAll)>>]
+         ELSE [anyof |-> <<[n |-> Len(a.octets), same |-> TRUE], ExpRej(DocAll)>>]
     [] op = "rob.decode" ->
          IF a.full # <<>> /\ StrictPrefixOf(a.octets, a.full) /\ RobExact(a.ep, a.full, a.par)
          THEN ExpRej(DocAll)
@@ -138,6 +162,8 @@ FaultLaw(op, a) ==
                               /\ ~FaultDec(a, c).ok                          \* Inv_Detect on the specification
                               /\ (a.kind # "pdu" => Crc16(c) # 0)
     [] op = "stream.split" -> SplitOk(a.units, StreamOf(a.units))
+    \* grid units are well-formed: they declare their own length
+    [] op = "sfx.foreign" -> (Len(a.octets) >= DeclMin(a.u) /\ "grid" \in DOMAIN a) => DeclLen(a.u, a.octets) = Len(a.octets)
     [] op = "rob.decode" -> (a.full # <<>> /\ StrictPrefixOf(a.octets, a.full) /\ RobExact(a.ep, a.full, a.par)) =>
                               \* Inv_PrefixRejected: the specification's own decoder refuses the prefix
                               ~RobExact(a.ep, a.octets, a.par)
@@ -188,7 +214,27 @@ StreamUnits ==
      [k |-> "uslphdr", p |-> UslpHdrSample], [k |-> "uslphdr", p |-> UslpTruncSample],
      [k |-> "uslphdr", p |-> [UslpHdrSample EXCEPT !.vcflen = 3, !.vcf = VcfOf(3)]] >>
 PduUnit(k, c, j) == [k |-> "pdu", p |-> [kind |-> KindOrder[k], cfg |-> c, p |-> CHOOSE p \in ParamFew(KindOrder[k]) : TRUE]]
-SfxNParts == 16
+\* file names a foreign filestore may send: Latin-1, a lone FF, a UTF-16 surrogate in UTF-8 clothing, an overlong NUL, a cut
+\* two-octet character
+ForeignNames == {<<99, 97, 102, 233>>, <<255>>, <<237, 160, 128>>, <<192, 128>>, <<97, 195>>}
+ForeignSfx == {<<>>, <<0>>, <<6, 1, 5>>, <<32, 0, 2, 17, 1, 17, 33>>}
+ForeignUnits ==
+  {[k |-> "ctlv", p |-> [cls |-> "fsreq", p |-> [action |-> act, n1 |-> n, n2 |-> IF TwoNames(act) THEN m ELSE <<>>]]] :
+     act \in {0, 2}, n \in ForeignNames \cup {<<97>>}, m \in {<<98>>, <<255, 254>>}}
+  \cup {[k |-> "ctlv", p |-> [cls |-> "fsresp", p |-> [action |-> act, status |-> 0, n1 |-> n, n2 |-> IF TwoNames(act) THEN m ELSE <<>>,
+                                                      msg |-> g]]] :
+     act \in {0, 3}, n \in ForeignNames \cup {<<97>>}, m \in {<<98>>, <<255, 254>>}, g \in {<<>>, <<200, 201>>}}
+  \cup {[k |-> "pdu", p |-> [kind |-> "finished", cfg |-> c,
+                             p |-> [cond |-> 4, delivery |-> 1, status |-> 1,
+                                    responses |-> <<[action |-> 0, status |-> 0, n1 |-> n, n2 |-> <<>>, msg |-> <<>>]>> \o more,
+                                    fault |-> fl]]] :
+     c \in {CfgOf(0, 0, 1, 1, 0, 0), CfgOf(1, 1, 2, 2, 0, 0)}, n \in ForeignNames,
+     more \in {<<>>, <<RespSample(2)>>}, fl \in {<<>>, << <<7>> >>}}
+  \cup {[k |-> "pdu", p |-> [kind |-> "metadata", cfg |-> c,
+                             p |-> [closure |-> 1, cktype |-> 3, size |-> <<2, 0>>, srcname |-> n, dstname |-> m, options |-> o]]] :
+     c \in {CfgOf(0, 0, 1, 1, 0, 0), CfgOf(1, 1, 2, 2, 0, 0)}, n \in ForeignNames, m \in {<<98, 99>>, <<255>>},
+     o \in {<<>>, <<[t |-> 2, v |-> <<104>>]>>}}
+SfxNParts == 17
 SfxGridPart(i) ==
   CASE i = 1 -> UNION {{[op |-> "tc.rt", a |-> [p |-> p, sfx |-> s, via |-> "ctor"]] : s \in SfxFam(TcEnc(TcOf(p)))} : p \in FaultTcs}
     [] i = 2 -> UNION {{[op |-> "tm.rt", a |-> [p |-> p, sfx |-> s, via |-> v]] : s \in SfxFam(TmEnc(TmOf(p))), v \in {"tm"}} : p \in FaultTms}
@@ -219,6 +265,8 @@ SfxGridPart(i) ==
                  \cup {[op |-> "stream.split", a |-> [units |-> StreamUnits]]}
                  \cup {[op |-> "stream.split", a |-> [units |-> <<PduUnit(k, c, 1)>>]] : k \in 1..8, c \in CfgFew}
                  \cup {[op |-> "stream.split", a |-> [units |-> <<PduUnit(k, c, 1), PduUnit(k2, c, 1)>>]] : k \in 1..8, k2 \in {1, 8}, c \in {CfgOf(1, 0, 1, 2, 0, 0), CfgOf(0, 1, 2, 1, 0, 0)}}
+
+    [] i = 17 -> {[op |-> "sfx.foreign", a |-> [u |-> u, octets |-> UnitEnc(u), sfx |-> x, grid |-> 1]] : u \in ForeignUnits, x \in ForeignSfx}
 
 \* --- C10: all truncation points and single-octet substitutions of sample units per entry point
 SubVals(orig) == {0, 1, 127, 128, 255, (orig + 1) % 256, (orig + 255) % 256}
